@@ -235,6 +235,11 @@ type c11World struct {
 func (s *c11Serving) build(c c11Cfg) *c11World {
 	lclass := strings.TrimPrefix(c.Local, "big-")
 	bn := newBareNode(bareOpts{keyIdx: c11LocalKey, ip: c11IP(lclass, 300), port: 9011})
+	// the routing table is created first and the local record changes afterwards (as it does when the
+	// external address is learnt, or another sub-protocol adds an entry): distance 0 must offer
+	// the record as it is now
+	vt := bn.initTable()
+	bn.LN.Set(enr.WithEntry("c11", uint8(1)))
 	if lclass != c.Local {
 		s0, _ := rlp.EncodeToBytes(bn.P.Self().Record())
 		bn.LN.Set(enr.WithEntry("zz", make([]byte, enr.SizeLimit-len(s0)-6))) // key 3 + value header 2 + longer list header 1
@@ -245,7 +250,6 @@ func (s *c11Serving) build(c c11Cfg) *c11World {
 	}
 	w := &c11World{bn: bn, byRaw: map[string]*c11Entry{}, local: &c11Entry{raw: lraw, node: bn.P.Self(), bucket: -1, live: true, class: lclass}}
 	w.byRaw[string(lraw)] = w.local
-	vt := bn.initTable()
 	w.vt, w.stop, w.peer = vt, vt.ServeAdds(), signedNode(detKey(13), 1, net.IP{44, 0, 13, 1}, 30303)
 	for b := 0; b < portalwire.VNBuckets; b++ {
 		for e := 0; e < c.Fill; e++ {
